@@ -6,8 +6,10 @@ import (
 	"bytes"
 	"fmt"
 	"io"
+	"log"
 	"math/rand"
 	"net/http"
+	"net/http/httptest"
 	"os"
 	"os/exec"
 	"path/filepath"
@@ -1027,6 +1029,131 @@ func runSaves(c *harness.Ctx) harness.Result {
 	return res
 }
 
+// what pprof prints for the user while it fetches many sources at once: the real executable with
+// its own terminal UI (messages go to standard error), 100-128 URL sources served by a loopback
+// server. Every message arrives as a line of its own.
+func runStderr(c *harness.Ctx) harness.Result {
+	r := c.Rng
+	exe := filepath.Join(os.Getenv("VERIF_BIN"), "pprof")
+	if _, err := os.Stat(exe); err != nil {
+		return harness.Result{Verdict: harness.Inconclusive, Detail: "pprof executable not built: " + err.Error()}
+	}
+	p := c10.GenProfile(rand.New(rand.NewSource(3)))
+	var buf bytes.Buffer
+	p.Write(&buf)
+	body := buf.Bytes()
+	srv := httptest.NewUnstartedServer(http.HandlerFunc(func(w http.ResponseWriter, _ *http.Request) { w.Write(body) }))
+	srv.Config.ErrorLog = log.New(io.Discard, "", 0)
+	func() {
+		defer func() { recover() }()
+		srv.Start()
+	}()
+	if srv.URL == "" {
+		return harness.Result{Verdict: harness.Inconclusive, Detail: "cannot listen on the loopback interface"}
+	}
+	defer srv.Close()
+	n := 100 + r.Intn(29)
+	var urls []string
+	want := map[string]bool{}
+	for i := 0; i < n; i++ {
+		u := fmt.Sprintf("%s/pprof/heap?src=%03d", srv.URL, i)
+		urls = append(urls, u)
+		want["Fetching profile over HTTP from "+u] = true
+	}
+	home := filepath.Join(c.Tmp, "home")
+	os.MkdirAll(home, 0o755)
+	argv := append([]string{exe, "-top", "-symbolize=none", "-output", filepath.Join(c.Tmp, "out.txt")}, urls...)
+	if st, err := exec.LookPath("strace"); err == nil && c.Index%2 == 0 {
+		// every other run under strace: each write call is stopped and resumed, which spreads the
+		// threads' writes in time the way a slow terminal does
+		argv = append([]string{st, "-f", "-qq", "-o", "/dev/null", "-e", "trace=write"}, argv...)
+		c.Stat("stderr_runs_under_strace", 1)
+	}
+	cmd := exec.Command(argv[0], argv[1:]...)
+	cmd.Env = []string{"HOME=" + home, "XDG_CONFIG_HOME=" + home + "/config", "PPROF_TMPDIR=" + home + "/tmp", "PATH=/nonexistent"}
+	var errb bytes.Buffer
+	cmd.Stderr = &errb
+	if err := cmd.Run(); err != nil {
+		return harness.Violation("pprof -top over %d URL sources failed: %v\n%s", n, err, harness.Trunc(errb.String(), 1500))
+	}
+	res := harness.Result{NonTrivial: true, Sig: fmt.Sprint("stderr", c.Index, n), Sample: map[string]any{"sources": n}}
+	c.Stat("stderr_runs", 1)
+	seen := 0
+	for i, l := range strings.Split(strings.TrimSuffix(errb.String(), "\n"), "\n") {
+		switch {
+		case want[l]:
+			delete(want, l)
+			seen++
+		case strings.HasPrefix(l, "Saved profile in "), strings.HasPrefix(l, "Generating report in "):
+		default:
+			res.Verdict = harness.Violated
+			res.Detail = fmt.Sprintf("line %d of what pprof printed while fetching %d sources is not one whole message: %q\n%s", i+1, n, harness.Trunc(l, 300), harness.Trunc(errb.String(), 1200))
+			return res
+		}
+	}
+	c.Stat("stderr_message_lines", int64(seen))
+	if seen != n {
+		res.Verdict, res.Detail = harness.Violated, fmt.Sprintf("%d of %d 'Fetching profile over HTTP from ...' messages arrived as lines of their own", seen, n)
+	}
+	return res
+}
+
+// the terminal UI itself (what pprof uses when no UI plug-in is given), printing from eight
+// goroutines at once the way parallel fetches and web handlers do: every message is a line of its
+// own in what arrives on standard error. Runs in a child process whose standard error is a file.
+func runStdUI(c *harness.Ctx) harness.Result {
+	out := filepath.Join(c.Tmp, "stderr.txt")
+	f, err := os.Create(out)
+	if err != nil {
+		return harness.Result{Verdict: harness.Inconclusive, Detail: err.Error()}
+	}
+	cmd := exec.Command(harness.Self(), "child", "c20stdui", fmt.Sprint(c.Rng.Int63()))
+	cmd.Stderr = f
+	err = cmd.Run()
+	f.Close()
+	if err != nil {
+		return harness.Result{Verdict: harness.Inconclusive, Detail: "child: " + err.Error()}
+	}
+	b, _ := os.ReadFile(out)
+	res := harness.Result{NonTrivial: true, Sig: fmt.Sprint("stdui", c.Index)}
+	rx := regexp.MustCompile(`^(fetching|error) [0-7] [0-9]+ http://host[0-7]\.test/debug/pprof/profile\?seconds=[0-9]+$`)
+	n := 0
+	for i, l := range strings.Split(strings.TrimSuffix(string(b), "\n"), "\n") {
+		if !rx.MatchString(l) {
+			res.Verdict = harness.Violated
+			res.Detail = fmt.Sprintf("line %d of what eight goroutines printed through pprof's terminal UI is not one whole message: %q", i+1, harness.Trunc(l, 300))
+			return res
+		}
+		n++
+	}
+	c.Stat("stdui_lines", int64(n))
+	if n != 8*1500 {
+		res.Verdict, res.Detail = harness.Violated, fmt.Sprintf("%d lines arrived for %d messages", n, 8*1500)
+	}
+	return res
+}
+
+func stdUIChild(args []string) int {
+	ui := driver.VerifStdUI()
+	var wg sync.WaitGroup
+	for g := 0; g < 8; g++ {
+		wg.Add(1)
+		go func(g int) {
+			defer wg.Done()
+			for k := 0; k < 1500; k++ {
+				msg := fmt.Sprintf("%d %d http://host%d.test/debug/pprof/profile?seconds=%d", g, k, g, k%30)
+				if k%2 == 0 {
+					ui.Print("fetching ", msg)
+				} else {
+					ui.PrintErr("error ", msg)
+				}
+			}
+		}(g)
+	}
+	wg.Wait()
+	return 0
+}
+
 func writeTinyELF(path string) error {
 	// ELF64 header + one PT_LOAD (R+X) at 0x400000, little endian
 	h := make([]byte, 64+56)
@@ -1069,6 +1196,7 @@ var _ = time.Now
 func init() {
 	harness.Children["c20temp"] = tempChild
 	harness.Children["c20first"] = firstWebChild
+	harness.Children["c20stdui"] = stdUIChild
 	harness.Register(&harness.Check{
 		ID:          "C20",
 		Level:       "exploration",
@@ -1088,6 +1216,8 @@ func init() {
 			{Name: "tls", Quick: 16, Thor: 400, Run: c16.RunTLSFree},
 			{Name: "tools-nm", Quick: 12, Thor: 300, Run: runToolsNM},
 			{Name: "saves", Quick: 12, Thor: 300, Run: runSaves},
+			{Name: "stderr", Quick: 6, Thor: 100, Run: runStderr},
+			{Name: "stdui", Quick: 6, Thor: 200, Run: runStdUI},
 		},
 		CaseTimeout:   2 * time.Minute,
 		HangTries:     3,
